@@ -324,3 +324,62 @@ def loop_exit_atoms(test: ast.AST) -> Tuple[str, List[Tuple[str, str, str, bool]
     if isinstance(t, ast.BoolOp) and isinstance(t.op, ast.Or):
         return "all", [canon_atom(v, False) for v in t.values]
     return "all", [canon_atom(t, False)]
+
+
+# ---------------------------------------------------------------------------
+# robustness helpers: named conditions and extracted helpers
+# ---------------------------------------------------------------------------
+def expand_names(func: FuncInfo, expr: ast.AST, depth: int = 2) -> ast.AST:
+    """*expr* with every bare local that is assigned exactly once (to a boolean-valued expression) replaced by that expression:
+    ``too_deep = depth > MAX; if too_deep or too_many`` is read as ``if depth > MAX or ...``."""
+    import copy
+
+    class T(ast.NodeTransformer):
+        def visit_Name(self, n):
+            if isinstance(n.ctx, ast.Load) and n.id not in func.params:
+                defs = [d for d in assignments_to(func, n.id) if isinstance(d, (ast.Assign, ast.AnnAssign)) and getattr(d, "value", None) is not None]
+                if len(defs) == 1 and isinstance(defs[0].value, (ast.Compare, ast.BoolOp, ast.UnaryOp)):
+                    v = copy.deepcopy(defs[0].value)
+                    return expand_names(func, v, depth - 1) if depth > 0 else v
+            return n
+    return T().visit(copy.deepcopy(expr))
+
+
+def with_helpers(program, func: FuncInfo, stmts: Optional[Sequence[ast.AST]] = None, depth: int = 2) -> List[Tuple[FuncInfo, ast.AST]]:
+    """(function, node) for every node of *stmts* (default: the whole body of *func*, nested functions included) and of the private
+    helpers it calls on ``self`` / ``cls`` / by bare name (same class or module), to *depth*: a construct that was moved into a
+    helper by an "extract method" refactoring is still found."""
+    out: List[Tuple[FuncInfo, ast.AST]] = []
+    seen = {func.qualname}
+
+    def add(f: FuncInfo, nodes: Iterable[ast.AST], d: int) -> None:
+        calls = []
+        for n in nodes:
+            out.append((f, n))
+            if isinstance(n, ast.Call):
+                calls.append(n)
+        if d <= 0:
+            return
+        for c_ in calls:
+            name = None
+            if isinstance(c_.func, ast.Attribute) and isinstance(c_.func.value, ast.Name) and c_.func.value.id in ("self", "cls"):
+                name = c_.func.attr
+            elif isinstance(c_.func, ast.Name):
+                name = c_.func.id
+            if not name or not name.startswith("_") or name.startswith("__"):
+                continue
+            tgt = None
+            if f.cls is not None:
+                tgt = f.cls.find_method(name) if hasattr(f.cls, "find_method") else None
+            if tgt is None:
+                tgt = f.nested.get(name) or (f.parent.nested.get(name) if f.parent is not None else None) or f.module.functions.get(name)
+            if tgt is None or tgt.qualname in seen:
+                continue
+            seen.add(tgt.qualname)
+            add(tgt, list(ast.walk(tgt.node)), d - 1)
+    if stmts is None:
+        nodes = [n for n in ast.walk(func.node)]
+    else:
+        nodes = [n for s in stmts for n in ast.walk(s)]
+    add(func, nodes, depth)
+    return out
